@@ -252,6 +252,8 @@ func (s *Service) refreshAttesterDutiesForEpoch(ctx context.Context, epoch phase
 
 	cancelledJobs := make(map[phase0.Slot]bool)
 	// First thing we do is cancel all scheduled attestations jobs.
+	// Wait for any scheduling of attestations that is in progress to finish, so that its jobs are cancelled as well.
+	s.attesterDutiesMutex.Lock()
 	for slot := s.chainTimeService.FirstSlotOfEpoch(epoch); slot < s.chainTimeService.FirstSlotOfEpoch(epoch+1); slot++ {
 		if err := s.scheduler.CancelJob(ctx, fmt.Sprintf("Attestations for slot %d", slot)); err == nil {
 			cancelledJobs[slot] = true
@@ -262,6 +264,7 @@ func (s *Service) refreshAttesterDutiesForEpoch(ctx context.Context, epoch phase
 			s.pendingAttestationsMutex.Unlock()
 		}
 	}
+	s.attesterDutiesMutex.Unlock()
 
 	accounts, validatorIndices, err := s.accountsAndIndicesForEpoch(ctx, epoch)
 	if err != nil {
